@@ -113,6 +113,7 @@ func C18(p *core.Prog, rep *core.Report) {
 	hintLoader(p, rep, v)
 	m.ps5Adoption()
 	cd4Framing(p, rep)
+	v.vf3Merge()
 	rep.NotCovered = append(rep.NotCovered, "equality of the index built from the hint with the index built by scanning, for all merges")
 }
 
